@@ -48,7 +48,9 @@ type Case struct {
 	Typ    int      `json:"typ,omitempty"`    // frame: record type
 	Pref   []int    `json:"pref,omitempty"`   // frame: strict prefixes that were NOT rejected by the real replay
 	NPref  int      `json:"npref,omitempty"`  // frame: number of strict prefixes tried
-	Src    string   `json:"src,omitempty"`    // corpus file
+	Src     string   `json:"src,omitempty"`     // corpus file
+	Payload string   `json:"payload,omitempty"` // frame: record payload (hex)
+	seed    uint64
 }
 
 func u64le(vs []uint64) []byte {
@@ -905,7 +907,7 @@ func main() {
 					fmt.Fprintln(os.Stderr, "bad corpus line in", f, err)
 					os.Exit(3)
 				}
-				c := Case{K: in.K, Vals: in.Vals, Strs: in.Strs, Algo: in.Algo, Typ: in.Typ, Shape: "corpus", Src: filepath.Base(f)}
+				c := Case{K: in.K, Vals: in.Vals, Strs: in.Strs, Algo: in.Algo, Typ: in.Typ, Payload: in.Payload, Shape: "corpus", Src: filepath.Base(f)}
 				if c.Vals == nil {
 					c.Vals = []uint64{}
 				}
